@@ -6,14 +6,17 @@ Meant to be merged into tools/props/c08.py the way c01.py merges c01rank.py / c0
     LEAN_MODULES += fs.LEAN_MODULES; THEOREMS += fs.THEOREMS; CXX_TARGETS += fs.CXX_TARGETS; RULE/TRUSTED/ASSUMPTIONS appended.
 
 Protocol (harness/drv_fbshape.cpp, lean/Drivers/C08Shape.lean):
-    case <n> / shape <s> [init <writes>] / c <writes>|-  (one line per consecutive smallest step from MIN_ST) / run
-    every `c` line answers  t=<time> cyc=<0|1> w=<producer delta|-> r=<reader delta|-> v=<reader value|->"""
+    case <n> / shape <s> [init <writes>|{}] [loop] [probe <t>] / c <writes>|-  (one line per consecutive smallest step
+    from MIN_ST) / run
+    every `c` line answers  t=<time> cyc=<0|1> w=<producer delta|-> r=<reader delta|-> v=<reader value|invalid|->
+    init {} = the declared initial delta is the canonical EMPTY delta; loop = self loop through a validity-gated body
+    (x : TS<Int> scripted, w = the body's delta); probe t = the reader recorder is also evaluated at t (validity)."""
 import itertools
 import os
 from vlib import Case, Stream, BUILD, model_cmd
 
 ID = "C08S"
-LEAN_MODULES = ["HgVerif.Props.C08Shape"]
+LEAN_MODULES = ["HgVerif.Props.C08Shape", "HgVerif.Props.C08Init"]
 THEOREMS = [
     "HgVerif.FeedbackShape.shape_feedback_delay",
     "HgVerif.FeedbackShape.shape_initial_value",
@@ -27,6 +30,19 @@ THEOREMS = [
     "HgVerif.FeedbackShape.shape_quiescent",
     "HgVerif.FeedbackShape.source_due_iff_written",
     "HgVerif.FeedbackShape.state_not_cleared_harmless",
+    "HgVerif.FeedbackShape.initial_then_shifted",
+    "HgVerif.FeedbackShape.no_initial_shifted",
+    "HgVerif.FeedbackShape.init_ticks_iff",
+    "HgVerif.FeedbackShape.init_ticksB_iff",
+    "HgVerif.FeedbackShape.empty_initial_per_kind",
+    "HgVerif.FeedbackShape.empty_initial_bundle",
+    "HgVerif.FeedbackShape.valid_from_start",
+    "HgVerif.FeedbackShape.valid_from_startB",
+    "HgVerif.FeedbackShape.gated_loop_is_fold",
+    "HgVerif.FeedbackShape.gated_loop_runs_on_every_tick",
+    "HgVerif.FeedbackShape.gated_loop_without_valid_prev_silent",
+    "HgVerif.FeedbackShape.s94_reader_not_validated",
+    "HgVerif.FeedbackShape.s94_loop_never_starts",
 ]
 CXX_TARGETS = ["hgv_fbshape"]
 RULE = ("fbshape streams: one feedback edge of shape TS<Int> | TSB{a,b} | TSB{a,b,c} | TSB{a,n:TSB{x,y}} | TSL<TS<Int>,2> | "
@@ -36,22 +52,35 @@ RULE = ("fbshape streams: one feedback edge of shape TS<Int> | TSB{a,b} | TSB{a,
         "add/remove/re-add incl. no-op operations, writes in the start cycle, in consecutive cycles, with gaps and in the last "
         "cycle before the end time; recorders on the producer and on the feedback port log per cycle the delta (which "
         "positions ticked with which values, added/removed) and the full value; thorough adds every TSB{a,b} history of 4 "
-        "cycles x every initial delta and every TSS history of 4 cycles over 2 elements (with/without initial delta). A case is non-trivial when the reader "
+        "cycles x every initial delta and every TSS history of 4 cycles over 2 elements (without / with content / EMPTY initial "
+        "delta) and every 5-cycle history of x for the gated loops. Start time: shape TSB{a:TS,s:TSS} (a bundle WITH a collection "
+        "field) is added; the declared initial delta is absent | has content | is the canonical EMPTY delta of the schema "
+        "(init {}: TSS/TSD/TSL/TSB; TS uses 0) | (TSS/TSD/TSB.s) carries removals; `probe t` evaluates the recorder on the "
+        "feedback port at t without a tick so the port's VALIDITY is logged (70% at the start time); `loop` (TS/TSS/TSD) closes "
+        "a self loop acc = body(x, passive(fb())) whose body has the default validity gate (prev + x | prev U {x} | prev (+) "
+        "{x%3: x}), x scripted; `late` spacing leaves the start cycle to the initial delta alone; first producer write = the "
+        "EMPTY delta (remove / erase of an absent element); a directed block runs every shape x initial kind x probe x "
+        "{late first write, write in the start cycle, loop}. A case is non-trivial when the reader "
         "ticked in >=2 cycles; distinct by case text")
 TRUSTED = ["the recorders read modified()/valid()/value() per position (TSS added()/removed(), TSD modified_items()/"
            "removed_keys()) of the feedback port; values are Int; capture/apply of deltas in depth is C20's subject",
            "the producer model (Out<S> mutations always tick; TSS/TSD deltas list only effective changes) is part of the "
            "correspondence, not of the theorems, which quantify over arbitrary producer deltas"]
 ASSUMPTIONS = ["one producer write set per position and cycle; no same-cycle set+erase of one TSD key (C05 covers those)",
+               "gated loop: the body is a compute node with the default validity gate (all inputs valid) and the feedback "
+               "input passive (node readiness is C03's subject); its arithmetic is part of the harness and of `bodyOps`",
                "the source ranks before its readers and the sink after the producer (C01); the sink's request for t+1 is "
                "honoured unless the end time cuts it off (C02)"]
 
 FB = [os.path.join(BUILD, "hgv_fbshape")]
 SHAPES = {"ts": ("fix", 1), "tsb2": ("fix", 2), "tsb3": ("fix", 3), "tsbn": ("fix", 3), "tsl2": ("fix", 2),
-          "tss": ("set", 0), "tsd": ("dict", 0)}
+          "tss": ("set", 0), "tsd": ("dict", 0), "tsbs": ("bset", 1)}
+LOOP_SHAPES = ("ts", "tss", "tsd")
 
 
 # ----------------------------------------------------------------------------- text <-> structures
+# flat kinds: a delta is (mods {pos: val}, rems set)
+# bset (TSB{a : TS, s : TSS}): a delta is dict(a=None|int, s=None|(adds set, rems set))
 
 def parse_writes(text):
     """-> (mods {pos: val}, rems set) or None"""
@@ -74,6 +103,31 @@ def parse_writes(text):
         else:
             mods[p] = v
     return mods, rems
+
+
+def parse_writes_b(text, authored):
+    """tsbs: 0=v (field a), +e / -e (field s).  authored deltas default the entry of s to the empty set delta"""
+    a, adds, rems = None, set(), set()
+    for tok in text.split(","):
+        try:
+            if tok[:1] == "+":
+                e = int(tok[1:])
+                if e in adds or e in rems:
+                    return None
+                adds.add(e)
+            elif tok[:1] == "-":
+                e = int(tok[1:])
+                if e in adds or e in rems:
+                    return None
+                rems.add(e)
+            else:
+                p, v = tok.split("=")
+                if int(p) != 0 or a is not None:
+                    return None
+                a = int(v)
+        except Exception:
+            return None
+    return dict(a=a, s=(adds, rems) if (authored or adds or rems) else None)
 
 
 def parse_braces(text):
@@ -105,36 +159,90 @@ def parse_braces(text):
     return mods, rems
 
 
+def parse_braces_b(text):
+    """tsbs delta or value: '{[0=v][,s[,+e|-e|e ...]]}' -> dict(a, s) ; '-' -> None ; 'invalid' -> 'invalid'"""
+    if text in ("-", "invalid"):
+        return None if text == "-" else "invalid"
+    if not (text.startswith("{") and text.endswith("}")):
+        raise ValueError(text)
+    a, s = None, None
+    for tok in ([] if text == "{}" else text[1:-1].split(",")):
+        if tok == "s":
+            if s is not None:
+                raise ValueError(text)
+            s = (set(), set())
+        elif "=" in tok:
+            p, v = tok.split("=")
+            if int(p) != 0 or a is not None or s is not None:
+                raise ValueError(text)
+            a = int(v)
+        else:
+            if s is None:
+                raise ValueError(text)
+            e = int(tok[1:]) if tok[:1] in "+-" else int(tok)
+            if e in s[0] or e in s[1]:
+                raise ValueError(text)
+            (s[1] if tok[:1] == "-" else s[0]).add(e)
+    return dict(a=a, s=s)
+
+
 def parse_case(case):
-    """-> dict(shape, kind, npos, init, script=[(line_index, writes|None)], run_index) or None"""
+    """-> dict(shape, kind, npos, init, loop, probe, script=[(line_index, writes|None)], run_index) or None"""
     if len(case.lines) < 4:
         return None
     w = case.lines[1].split()
-    if len(w) not in (2, 4) or w[0] != "shape" or w[1] not in SHAPES:
+    if len(w) < 2 or w[0] != "shape" or w[1] not in SHAPES:
         return None
-    init = None
-    if len(w) == 4:
-        if w[2] != "init":
+    kind, npos = SHAPES[w[1]]
+    init, loop, probe, i = None, False, None, 2
+    if i + 1 < len(w) and w[i] == "init":
+        if w[i + 1] == "{}":
+            if w[1] == "ts":
+                return None
+            init = dict(a=None, s=(set(), set())) if kind == "bset" else ({}, set())
+        else:
+            init = parse_writes_b(w[i + 1], True) if kind == "bset" else parse_writes(w[i + 1])
+            if init is None:
+                return None
+            if kind == "fix" and (init[1] or any(q >= npos for q in init[0])):
+                return None
+        i += 2
+    if i < len(w) and w[i] == "loop":
+        if w[1] not in LOOP_SHAPES:
             return None
-        init = parse_writes(w[3])
-        if init is None or init[1]:
+        loop = True
+        i += 1
+    if i + 1 < len(w) and w[i] == "probe":
+        try:
+            probe = int(w[i + 1])
+        except ValueError:
             return None
+        if not 1 <= probe < 1000:
+            return None
+        i += 2
+    if i != len(w):
+        return None
     script = []
-    for i, ln in enumerate(case.lines[2:-1], start=2):
+    for li, ln in enumerate(case.lines[2:-1], start=2):
         t = ln.split()
         if len(t) != 2 or t[0] != "c":
             return None
         if t[1] == "-":
-            script.append((i, None))
-        else:
+            script.append((li, None))
+        elif loop:
             ws = parse_writes(t[1])
+            if ws is None or ws[1] or list(ws[0]) != [0] or ws[0][0] < 0:
+                return None
+            script.append((li, ws[0][0]))
+        else:
+            ws = parse_writes_b(t[1], False) if kind == "bset" else parse_writes(t[1])
             if ws is None:
                 return None
-            script.append((i, ws))
+            script.append((li, ws))
     if case.lines[-1].strip() != "run" or not script:
         return None
-    kind, npos = SHAPES[w[1]]
-    return dict(shape=w[1], kind=kind, npos=npos, init=init, script=script, run_index=len(case.lines) - 1)
+    return dict(shape=w[1], kind=kind, npos=npos, init=init, loop=loop, probe=probe, script=script,
+                run_index=len(case.lines) - 1)
 
 
 class Acc:
@@ -171,21 +279,92 @@ class Acc:
         self.valid = True
         return omod, orem
 
+    def value(self):
+        return (dict(self.items), set()) if self.valid else "invalid"
+
+
+class AccB:
+    """TSB{a : TS, s : TSS}: a bundle delta is applied child by child, each child behind its own gate; the bundle
+    ticks iff a child does"""
+
+    def __init__(self):
+        self.a, self.s = Acc("fix"), Acc("set")
+
+    def mutate(self, d, gated):
+        oa = self.a.mutate({0: d["a"]}, set(), gated) if d["a"] is not None else None
+        os_ = self.s.mutate({e: 0 for e in d["s"][0]}, set(d["s"][1]), gated) if d["s"] is not None else None
+        if oa is None and os_ is None:
+            return None
+        return dict(a=oa[0][0] if oa is not None else None, s=(set(os_[0]), set(os_[1])) if os_ is not None else None)
+
+    def value(self):
+        if not (self.a.valid or self.s.valid):
+            return "invalid"
+        return dict(a=self.a.items.get(0), s=(set(self.s.items), set()) if self.s.valid else None)
+
 
 def fmt(kind, d):
     if d is None:
         return "-"
+    if d == "invalid":
+        return "invalid"
+    if kind == "bset":
+        toks = ["0=%d" % d["a"]] if d["a"] is not None else []
+        if d["s"] is not None:
+            toks.append("s")
+            toks += [t for _, t in sorted([(e, "+%d" % e) for e in d["s"][0]] + [(e, "-%d" % e) for e in d["s"][1]])]
+        return "{" + ",".join(toks) + "}"
     mods, rems = d
     toks = [(p, ("+%d" % p) if kind == "set" else "%d=%d" % (p, v)) for p, v in mods.items()] + [(p, "-%d" % p) for p in rems]
     return "{" + ",".join(t for _, t in sorted(toks)) + "}"
 
 
-def parse_out_line(line):
+def fmt_val(kind, v):
+    """a VALUE (members / valid positions) in a canonical text, for comparison only"""
+    if v is None or v == "invalid":
+        return "-" if v is None else "invalid"
+    if kind == "bset":
+        return fmt("bset", v)
+    return fmt("dict" if kind != "set" else "set", v)
+
+
+def parse_out_line(line, kind):
     f = line.split(" ")
     if len(f) != 5 or not (f[0].startswith("t=") and f[1].startswith("cyc=") and f[2].startswith("w=")
                            and f[3].startswith("r=") and f[4].startswith("v=")):
         raise ValueError(line)
-    return int(f[0][2:]), f[1][4:] == "1", parse_braces(f[2][2:]), parse_braces(f[3][2:]), parse_braces(f[4][2:])
+    pb = parse_braces_b if kind == "bset" else (lambda x: "invalid" if x == "invalid" else parse_braces(x))
+    return int(f[0][2:]), f[1][4:] == "1", pb(f[2][2:]), pb(f[3][2:]), pb(f[4][2:])
+
+
+def body_ops(kind, prev_items, x):
+    """what the validity-gated body of the loop writes (drv_fbshape.cpp Body<S>)"""
+    if kind == "fix":
+        return {0: prev_items.get(0, 0) + x}, set()
+    if kind == "set":
+        m = {p: 0 for p in prev_items}
+        m[x] = 0
+        return m, set()
+    m = dict(prev_items)
+    m[x % 3] = x
+    return m, set()
+
+
+def init_has_effect(kind, init):
+    """does a declared initial delta tick the FRESH output (and, for the collection shapes, make it valid)?"""
+    if kind == "fix":
+        return bool(init[0])
+    if kind == "set":
+        return True
+    if kind == "dict":
+        return bool(init[0]) or not init[1]
+    return init["a"] is not None or init["s"] is not None
+
+
+def is_empty_delta(kind, d):
+    if kind == "bset":
+        return d["a"] is None and d["s"] is not None and not d["s"][0] and not d["s"][1]
+    return not d[0] and not d[1]
 
 
 # ----------------------------------------------------------------------------- the property on ONE implementation trace
@@ -195,9 +374,23 @@ def check_trace(case, out):
     p = parse_case(case)
     if p is None:
         return bad, feats
-    kind = p["kind"]
+    kind, loop, probe, init = p["kind"], p["loop"], p["probe"], p["init"]
     feats.add("shape=" + p["shape"])
-    feats.add("initial-delta" if p["init"] else "no-initial-delta")
+    if init is None:
+        feats.add("no-initial-delta")
+    else:
+        feats.add("initial-delta")
+        feats.add("initial=EMPTY" if is_empty_delta(kind, init) else "initial=non-empty")
+        if kind in ("set", "dict") and init[1]:
+            feats.add("initial-with-removals" + ("-only" if not init[0] else ""))
+        if kind in ("set", "dict", "bset"):
+            feats.add("collection-initial:%s" % ("validates" if init_has_effect(kind, init) else "no-effect"))
+        elif not init_has_effect(kind, init):
+            feats.add("empty-initial-on-shape-without-empty-state(control)")
+    if loop:
+        feats.add("loop")
+    if probe is not None:
+        feats.add("probe" + ("@start" if probe == 1 else ""))
     if len(out) != len(case.lines):
         return ["[lines] %d output lines for %d input lines" % (len(out), len(case.lines))], feats
     res = out[p["run_index"]]
@@ -205,57 +398,58 @@ def check_trace(case, out):
         return ["[run] the run failed: %s" % res[:60]], feats
     if res != "ok extra=0":
         bad.append("[quiescence] engine cycles at times outside the scripted range: %s" % res)
-    reader = Acc(kind)       # fold of everything delivered so far = initial delta + writes up to the previous cycle
-    prod = Acc(kind)         # the producer's own output
-    pending = p["init"]      # delta due at this cycle: written one smallest step earlier (initial delta at the start)
-    pending_is_init = p["init"] is not None
+    new = (lambda: AccB()) if kind == "bset" else (lambda: Acc(kind))
+    reader = new()           # fold of everything delivered so far = initial delta + writes up to the previous cycle
+    prod = new()             # the producer's own output (line) / the body's output (loop)
+    pending = init           # delta due at this cycle: written one smallest step earlier (initial delta at the start)
     n_deliv, n_ticks, prev_written = 0, 0, False
     last = len(p["script"]) - 1
+    coll_init = init is not None and kind in ("set", "dict", "bset") and init_has_effect(kind, init)
+    first_write_seen = False
+    # the loop's specification: a plain fold over the ticks of x, no timing in it (prev = the fed-back value)
+    spec_prev, spec_acc, spec_w, seen_w = new(), new(), [], []
+    if loop and init is not None:
+        spec_prev.mutate(init[0], init[1], gated=True)
+
+    def mut(acc, d, gated):
+        return acc.mutate(d, gated) if kind == "bset" else acc.mutate(d[0], d[1], gated)
+
     for k, (li, ops) in enumerate(p["script"]):
         t = 1 + k
         try:
-            ot, cyc, w, r, v = parse_out_line(out[li])
+            ot, cyc, w, r, v = parse_out_line(out[li], kind)
         except Exception:
             return bad + ["[lines] unreadable cycle line %r" % out[li][:80]], feats
         if ot != t:
             bad.append("[lines] cycle line %d reports time %d, expected %d" % (k, ot, t))
-        # -- producer side (harness sanity: what the producer exposed must be what the script wrote)
-        if ops is None:
-            exp_w = None
-        else:
-            if kind == "fix" and any(q in prod.items for q in range(p["npos"]) if q not in ops[0]) and len(ops[0]) < p["npos"]:
-                feats.add("strict-subset-written-while-other-position-valid")
-            if kind == "fix" and any(prod.items.get(q) == x for q, x in ops[0].items()):
-                feats.add("equal-value-rewritten")
-            if kind == "fix" and p["npos"] > 1 and len(ops[0]) == p["npos"]:
-                feats.add("all-positions-written-together")
-            if kind != "fix" and (any(q in prod.items for q in ops[0]) and kind == "set" or any(q not in prod.items for q in ops[1])):
-                feats.add("no-op-add-or-remove")
-            if ops[1]:
-                feats.add("removal-written")
-            exp_w = prod.mutate(ops[0], ops[1], gated=False)
-            if k == 0:
-                feats.add("write-in-start-cycle")
-            if k == last:
-                feats.add("write-in-last-cycle-before-end")
-            if prev_written:
-                feats.add("writes-in-consecutive-cycles")
-        if fmt(kind, w) != fmt(kind, exp_w):
-            bad.append("[producer] the producer did not expose what the script wrote: t=%d exposed %s, wrote %s" % (t, fmt(kind, w), fmt(kind, exp_w)))
-        # -- the reader side: exactly what was written one smallest step earlier
+        # -- the reader side: exactly what was written one smallest step earlier (the declared initial delta at the start)
+        what = ("written at t=%d" % (t - 1)) if k else "declared initial delta"
         if pending is None:
             exp_r = None
         else:
-            exp_r = reader.mutate(pending[0], pending[1], gated=True)
+            exp_r = mut(reader, pending, True)
             n_deliv += 1
             if exp_r is None:
                 feats.add("empty-delta-delivery-without-tick")
             elif fmt(kind, exp_r) != fmt(kind, pending):
                 feats.add("delivery-partly-ineffective(initial-delta-overlap)")
-        exp_v = (dict(reader.items), set()) if exp_r is not None else None
+            if exp_r is not None and is_empty_delta(kind, pending) and kind != "fix":
+                feats.add("validating-tick-with-empty-delta" + ("(initial)" if k == 0 and init is not None else "(written)"))
+        exp_v = reader.value() if exp_r is not None else None
+        if k == 0 and coll_init:
+            # "a declared initial value at the start time": the collection must be valid from the start time on
+            if r is None or v is None or v == "invalid":
+                bad.append("[initial] the declared initial value did not arrive at the start time: t=%d the reader's port %s; "
+                           "declared initial delta %s must tick the reader and leave the collection valid%s"
+                           % (t, "did not tick" if r is None else "is not valid", fmt(kind, init),
+                              " (and empty)" if is_empty_delta(kind, init) else ""))
         if fmt(kind, r) != fmt(kind, exp_r):
-            rm, rr = r if r is not None else ({}, set())
-            em, er = exp_r if exp_r is not None else ({}, set())
+            if kind == "bset":
+                rm, rr = ({}, set())
+                em, er = ({}, set())
+            else:
+                rm, rr = r if r is not None else ({}, set())
+                em, er = exp_r if exp_r is not None else ({}, set())
             if exp_r is None and w is not None and fmt(kind, r) == fmt(kind, w):
                 bad.append("[same-cycle] the reader saw a delta in the cycle that wrote it: t=%d %s" % (t, fmt(kind, r)))
             elif exp_r is None:
@@ -263,7 +457,10 @@ def check_trace(case, out):
                            % (t, fmt(kind, r), t - 1, "" if k else " and no initial delta was declared"))
             elif r is None:
                 bad.append("[lost] a written delta was not delivered one step later: t=%d the reader did not tick; %s: %s"
-                           % (t, ("written at t=%d" % (t - 1)) if k else "declared initial delta", fmt(kind, exp_r)))
+                           % (t, what, fmt(kind, exp_r)))
+            elif kind == "bset":
+                bad.append("[value] the reader's delta differs from the written one: t=%d saw %s, %s %s"
+                           % (t, fmt(kind, r), what, fmt(kind, exp_r)))
             else:
                 extra = sorted(set(rm) - set(em)) + sorted(rr - er)
                 missing = sorted(set(em) - set(rm)) + sorted(er - rr)
@@ -278,23 +475,106 @@ def check_trace(case, out):
                                % (t, fmt(kind, r), fmt(kind, exp_r)))
         elif r is not None:
             n_ticks += 1
-        if exp_r is not None and r is not None and fmt("dict" if kind != "set" else "set", v) != fmt("dict" if kind != "set" else "set", exp_v):
+        if exp_r is not None and r is not None and fmt_val(kind, v) != fmt_val(kind, exp_v):
             bad.append("[accumulated] the reader's value is not the fold of the written deltas: t=%d value %s, fold %s"
-                       % (t, fmt("dict" if kind != "set" else "set", v), fmt("dict" if kind != "set" else "set", exp_v)))
-        # -- quiescence: a cycle runs only when the producer is scripted or a delivery is due
-        exp_cyc = ops is not None or pending is not None
+                       % (t, fmt_val(kind, v), fmt_val(kind, exp_v)))
+        # -- validity seen by the probe (the recorder is evaluated at `probe` whether or not the port ticked)
+        if probe == t:
+            want = reader.value()
+            feats.add("probe-sees-" + ("invalid" if want == "invalid" else "valid"))
+            if v is None:
+                bad.append("[lines] no probe record at t=%d" % t)
+            elif (v == "invalid") != (want == "invalid"):
+                bad.append("[validity] the feedback port is %s at t=%d but must be %s (%s)"
+                           % ("NOT valid" if v == "invalid" else "valid", t, "NOT valid" if want == "invalid" else "valid",
+                              ("declared initial delta %s" % fmt(kind, init)) if init is not None else "no initial delta declared"))
+            elif r is None and fmt_val(kind, v) != fmt_val(kind, want):
+                bad.append("[accumulated] the reader's value is not the fold of the written deltas: t=%d value %s, fold %s"
+                           % (t, fmt_val(kind, v), fmt_val(kind, want)))
+        # -- producer side
+        if loop:
+            # the body runs iff x ticked and the fed-back value is valid (default validity gate)
+            if ops is not None and reader.valid:
+                exp_w = prod.mutate(*body_ops(kind, reader.items, ops), gated=False)
+                feats.add("loop-body-ran")
+                if not first_write_seen:
+                    feats.add("loop-started-on-first-tick-of-x")
+            else:
+                exp_w = None
+                if ops is not None:
+                    feats.add("loop-body-gated-off(prev-not-valid)")
+            if ops is not None:
+                first_write_seen = True
+                # the specification fold
+                if spec_prev.valid:
+                    sw = spec_acc.mutate(*body_ops(kind, spec_prev.items, ops), gated=False)
+                    spec_w.append((t, fmt(kind, sw)))
+                    spec_prev.mutate(sw[0], sw[1], gated=True)
+            if w is not None:
+                seen_w.append((t, fmt(kind, w)))
+            if fmt(kind, w) != fmt(kind, exp_w):
+                if exp_w is not None and w is None:
+                    bad.append("[loop] the validity-gated loop body did not run: t=%d x ticked with %d and the fed-back value must be valid "
+                               "(%s), expected the body to write %s" % (t, ops, ("declared initial delta %s" % fmt(kind, init)) if init is not None
+                                                                     else "delivered earlier", fmt(kind, exp_w)))
+                else:
+                    bad.append("[loop] the loop body wrote %s at t=%d, the fold of x and the fed-back value gives %s"
+                               % (fmt(kind, w), t, fmt(kind, exp_w)))
+        else:
+            if ops is None:
+                exp_w = None
+            else:
+                if kind == "fix" and any(q in prod.items for q in range(p["npos"]) if q not in ops[0]) and len(ops[0]) < p["npos"]:
+                    feats.add("strict-subset-written-while-other-position-valid")
+                if kind == "fix" and any(prod.items.get(q) == x for q, x in ops[0].items()):
+                    feats.add("equal-value-rewritten")
+                if kind == "fix" and p["npos"] > 1 and len(ops[0]) == p["npos"]:
+                    feats.add("all-positions-written-together")
+                if kind in ("set", "dict") and (any(q in prod.items for q in ops[0]) and kind == "set" or any(q not in prod.items for q in ops[1])):
+                    feats.add("no-op-add-or-remove")
+                if kind in ("set", "dict") and ops[1]:
+                    feats.add("removal-written")
+                if kind == "bset":
+                    feats.add("bundle-write:" + "+".join(n for n, on in (("a", ops["a"] is not None), ("s", ops["s"] is not None)) if on))
+                    if ops["s"] is None and not reader.s.valid and not prod.s.valid:
+                        feats.add("bundle-write-of-a-while-s-not-valid")
+                exp_w = mut(prod, ops, False)
+                if not first_write_seen and kind != "fix" and is_empty_delta(kind, exp_w if kind != "bset" else dict(a=exp_w["a"], s=exp_w["s"])):
+                    feats.add("first-producer-write=EMPTY")
+                first_write_seen = True
+                if k == 0:
+                    feats.add("write-in-start-cycle")
+                if k == last:
+                    feats.add("write-in-last-cycle-before-end")
+                if prev_written:
+                    feats.add("writes-in-consecutive-cycles")
+            if fmt(kind, w) != fmt(kind, exp_w):
+                bad.append("[producer] the producer did not expose what the script wrote: t=%d exposed %s, wrote %s" % (t, fmt(kind, w), fmt(kind, exp_w)))
+        # -- quiescence: a cycle runs only when the producer is scripted, a delivery is due or the probe is
+        exp_cyc = ops is not None or pending is not None or probe == t
         if cyc != exp_cyc:
             if cyc:
                 bad.append("[quiescence] the engine ran a cycle although nothing is due: t=%d, nothing written at t=%d and the producer is idle"
                            % (t, t - 1))
-            else:
+            elif exp_r is not None:
                 bad.append("[lost] a written delta was not delivered one step later: no engine cycle at t=%d although a delivery is due" % t)
+            # a cycle skipped for a delivery that has no effect on the reader is not a loss
         if ops is None and pending is None:
             feats.add("idle-step(gap)")
         prev_written = ops is not None
         pending = (w if w is not None else None)
         if pending is not None and k == last:
             feats.add("undelivered-write-at-end")
+    if loop:
+        # "the gated loop's output stream equals the fold"
+        if seen_w != spec_w:
+            i = next((j for j in range(max(len(seen_w), len(spec_w))) if seen_w[j:j + 1] != spec_w[j:j + 1]), 0)
+            bad.append("[loop-fold] the loop's output stream is not the fold over the ticks of x: entry %d is %s, the fold gives %s "
+                       "(stream %s, fold %s)" % (i, seen_w[i] if i < len(seen_w) else "missing", spec_w[i] if i < len(spec_w) else "nothing",
+                                                 seen_w[:6], spec_w[:6]))
+        feats.add("loop-writes=%s" % (len(spec_w) if len(spec_w) < 3 else "3+"))
+        if init is None:
+            feats.add("loop-without-initial(never-starts)")
     feats.add("deliveries=%s" % (n_deliv if n_deliv < 3 else "3-5" if n_deliv <= 5 else "6+"))
     if n_ticks >= 2:
         feats.add("reader-ticked>=2")
@@ -320,16 +600,24 @@ def valid_case(stream, case, impl_out, model_out):
 # ----------------------------------------------------------------------------- generator
 
 def w2s(kind, mods, rems):
-    toks = [(p, ("+%d" % p) if kind == "set" else "%d=%d" % (p, v)) for p, v in mods.items()] + [(p, "-%d" % p) for p in rems]
+    toks = [(p, ("+%d" % p) if kind in ("set", "bset") else "%d=%d" % (p, v)) for p, v in mods.items()] + [(p, "-%d" % p) for p in rems]
     return ",".join(t for _, t in sorted(toks))
 
 
+def b2s(a, adds, rems):
+    """tsbs writes"""
+    toks = (["0=%d" % a] if a is not None else []) + [t for _, t in sorted([(e, "+%d" % e) for e in adds] + [(e, "-%d" % e) for e in rems])]
+    return ",".join(toks)
+
+
 def gen_case(rng, idx):
-    shape = rng.choice(["ts", "tsb2", "tsb2", "tsb2", "tsb3", "tsb3", "tsbn", "tsbn", "tsl2", "tsl2", "tss", "tss", "tsd", "tsd"])
+    shape = rng.choice(["ts", "tsb2", "tsb2", "tsb3", "tsb3", "tsbn", "tsbn", "tsl2", "tsl2", "tss", "tss", "tss", "tsd", "tsd",
+                        "tsd", "tsbs", "tsbs"])
     kind, npos = SHAPES[shape]
     n = rng.choice([3, 4, 5, 6, 6, 7, 8, 9, 10, 12, 14])
-    spacing = rng.choice(["consecutive", "gaps", "gaps", "mixed", "mixed", "sparse"])
+    spacing = rng.choice(["consecutive", "gaps", "gaps", "mixed", "mixed", "sparse", "late"])
     counter = [10]
+    loop = shape in LOOP_SHAPES and rng.random() < 0.3
 
     def val(p, prev):
         m = values_mode
@@ -341,18 +629,45 @@ def gen_case(rng, idx):
         return rng.randrange(-3, 6)
 
     values_mode = rng.choice(["distinct", "distinct", "small", "equal"])
-    init = None
-    if rng.random() < 0.4:
+    # the declared initial delta: none / with content / the canonical EMPTY delta / (collections) with removals
+    init_text = None
+    im = rng.choice(["none", "none", "none", "content", "content", "content", "empty", "empty", "removals"])
+    if im == "content" or (im == "removals" and kind in ("fix", "bset") and shape != "tsbs"):
         if kind == "fix":
             ps = rng.sample(range(npos), rng.randrange(1, npos + 1))
-            init = ({q: val(q, {}) for q in ps}, set())
+            init_text = w2s(kind, {q: (0 if rng.random() < 0.25 else val(q, {})) for q in ps}, set())
         elif kind == "set":
-            init = ({q: 0 for q in rng.sample(range(5), rng.randrange(1, 4))}, set())
+            init_text = w2s(kind, {q: 0 for q in rng.sample(range(5), rng.randrange(1, 4))}, set())
+        elif kind == "dict":
+            init_text = w2s(kind, {q: val(q, {}) for q in rng.sample(range(4), rng.randrange(1, 3))}, set())
         else:
-            init = ({q: val(q, {}) for q in rng.sample(range(4), rng.randrange(1, 3))}, set())
+            a = val(0, {}) if rng.random() < 0.6 else None
+            adds = rng.sample(range(5), rng.randrange(0 if a is not None else 1, 3))
+            init_text = b2s(a, adds, [])
+    elif im == "empty":
+        init_text = "0=0" if shape == "ts" else "{}"        # a TS has no empty delta: the default-looking 0 is the control
+    elif im == "removals":
+        if kind == "set":
+            rs = rng.sample(range(5), rng.randrange(1, 3))
+            ads = [q for q in rng.sample(range(5), rng.randrange(0, 2)) if q not in rs]
+            init_text = w2s(kind, {q: 0 for q in ads}, set(rs))
+        elif kind == "dict":
+            rs = rng.sample(range(4), rng.randrange(1, 3))
+            ms = [q for q in rng.sample(range(4), rng.randrange(0, 2)) if q not in rs]
+            init_text = w2s(kind, {q: val(q, {}) for q in ms}, set(rs))
+        else:
+            rs = rng.sample(range(5), rng.randrange(1, 3))
+            init_text = b2s(val(0, {}) if rng.random() < 0.3 else None, [], rs)
+    probe = None
+    if rng.random() < 0.3:
+        probe = 1 if rng.random() < 0.7 else rng.randrange(1, n + 1)
+    head = "shape %s%s%s%s" % (shape, (" init " + init_text) if init_text else "", " loop" if loop else "",
+                               (" probe %d" % probe) if probe else "")
     pattern = rng.choice(["subset-after-full", "one-by-one", "all-every", "single", "random", "random", "alternate"]) \
         if kind == "fix" and npos > 1 else "random"
+    first_empty = kind in ("set", "dict", "bset") and not loop and rng.random() < 0.15   # first producer write = the EMPTY delta
     single = rng.randrange(max(npos, 1))
+    late = rng.randrange(1, n)
     cur = {}                  # producer's value
     script = []
     written_cycles = 0
@@ -363,14 +678,21 @@ def gen_case(rng, idx):
             active = rng.random() < 0.6
         elif spacing == "sparse":
             active = rng.random() < 0.3
+        elif spacing == "late":
+            active = k >= late and rng.random() < 0.7          # nothing in the start cycle: only the initial delta is due there
         else:
             active = rng.random() < (0.85 if (k // 3) % 2 == 0 else 0.3)
-        if k == 0 and rng.random() < 0.5:
-            active = True
+        if spacing != "late":
+            if k == 0 and rng.random() < 0.5:
+                active = True
         if k == n - 1 and rng.random() < 0.4:
             active = True
         if not active:
             script.append(None)
+            continue
+        if loop:
+            script.append("0=%d" % rng.choice([0, 1, 1, 2, 3, 4, 5, 7]))
+            written_cycles += 1
             continue
         mods, rems = {}, set()
         if kind == "fix":
@@ -391,37 +713,80 @@ def gen_case(rng, idx):
             for q in ps:
                 mods[q] = val(q, cur)
             cur.update(mods)
-        elif kind == "set":
-            for q in rng.sample(range(5), rng.choice([1, 1, 2, 2, 3])):
-                present = q in cur
-                noop = rng.random() < 0.12
-                if present != noop:
-                    rems.add(q)
-                else:
-                    mods[q] = 0
-            for q in rems:
-                cur.pop(q, None)
-            cur.update(mods)
-        else:
-            for q in rng.sample(range(4), rng.choice([1, 1, 2, 2, 3])):
-                present = q in cur
+            text = w2s(kind, mods, rems)
+        elif kind == "set" or kind == "bset":
+            a = None
+            if kind == "bset":
                 r = rng.random()
-                if (present and r < 0.4) or (not present and r < 0.08):
-                    rems.add(q)
-                else:
-                    mods[q] = val(q, cur)
+                a = val(0, {}) if r < 0.6 else None
+                picks = rng.sample(range(5), rng.choice([1, 1, 2])) if (r >= 0.6 or rng.random() < 0.4) else []
+            else:
+                picks = rng.sample(range(5), rng.choice([1, 1, 2, 2, 3]))
+            if first_empty and written_cycles == 0:
+                picks = [q for q in (picks or [rng.randrange(5)]) if q not in cur]
+                rems = set(picks or [rng.randrange(5)])            # removing absent elements: the producer ticks with {}
+                if kind == "bset":
+                    a = None
+            else:
+                for q in picks:
+                    present = q in cur
+                    noop = rng.random() < 0.12
+                    if present != noop:
+                        rems.add(q)
+                    else:
+                        mods[q] = 0
             for q in rems:
                 cur.pop(q, None)
             cur.update(mods)
+            text = b2s(a, list(mods), list(rems)) if kind == "bset" else w2s(kind, mods, rems)
+        else:
+            if first_empty and written_cycles == 0:
+                rems = {rng.randrange(4)}                          # erase of an absent key: the producer ticks with {}
+            else:
+                for q in rng.sample(range(4), rng.choice([1, 1, 2, 2, 3])):
+                    present = q in cur
+                    r = rng.random()
+                    if (present and r < 0.4) or (not present and r < 0.08):
+                        rems.add(q)
+                    else:
+                        mods[q] = val(q, cur)
+            for q in rems:
+                cur.pop(q, None)
+            cur.update(mods)
+            text = w2s(kind, mods, rems)
         written_cycles += 1
-        script.append((mods, rems))
+        script.append(text)
     if all(s is None for s in script):
-        script[rng.randrange(n)] = (({0: 1}, set()) if kind != "set" else ({0: 0}, set()))
-    lines = ["case %d" % idx, "shape %s%s" % (shape, (" init " + w2s(kind, init[0], init[1])) if init else "")]
+        script[rng.randrange(n)] = "0=1" if (loop or kind in ("fix", "dict", "bset")) else "+0"
+    lines = ["case %d" % idx, head]
     for s in script:
-        lines.append("c -" if s is None else "c " + w2s(kind, s[0], s[1]))
+        lines.append("c -" if s is None else "c " + s)
     lines.append("run")
     return Case(lines, {"pattern": pattern, "spacing": spacing})
+
+
+def directed(start_idx):
+    """the start-time cases by name: every shape x {no initial, EMPTY initial, initial with content} x
+    {line with a late first write, line written in the start cycle, loop} with a probe at the start time"""
+    cases, idx = [], start_idx
+    content = {"ts": "0=7", "tsb2": "1=7", "tsb3": "0=7,2=9", "tsbn": "0=7,2=9", "tsl2": "1=5", "tss": "+7", "tsd": "5=50", "tsbs": "0=7,+2"}
+    write = {"ts": "0=1", "tsb2": "0=1", "tsb3": "1=1", "tsbn": "1=1", "tsl2": "0=1", "tss": "+1", "tsd": "1=10", "tsbs": "0=1"}
+    for shape in SHAPES:
+        inits = [None, content[shape], "0=0" if shape == "ts" else "{}"]
+        if shape in ("tss", "tsd"):
+            inits.append("-3")
+        if shape == "tsbs":
+            inits += ["-3", "0=7"]
+        for init in inits:
+            for probe in (None, 1, 2):
+                for scr in (["-", "-", write[shape], "-"], [write[shape], "-", write[shape], "-"]):
+                    head = "shape %s%s%s" % (shape, (" init " + init) if init else "", (" probe %d" % probe) if probe else "")
+                    cases.append(Case(["case %d" % idx, head] + ["c " + s for s in scr] + ["run"])); idx += 1
+                if shape in LOOP_SHAPES:
+                    for scr in (["0=1", "-", "0=2", "0=3", "-"], ["-", "-", "0=4", "0=4", "-"]):
+                        head = "shape %s%s loop%s" % (shape, (" init " + init) if init else "", (" probe %d" % probe) if probe else "")
+                        cases.append(Case(["case %d" % idx, head] + ["c " + s for s in scr] + ["run"])); idx += 1
+    return cases
 
 
 def exhaustive_small(start_idx):
@@ -448,23 +813,33 @@ def exhaustive_small(start_idx):
     # every TSS history of 4 cycles over elements {1,2}: per cycle nothing / +1 / -1 / +2 / -2 / +1,+2 / -1,-2 / +1,-2 / -1,+2
     sopts = [None, ({1: 0}, set()), ({}, {1}), ({2: 0}, set()), ({}, {2}), ({1: 0, 2: 0}, set()), ({}, {1, 2}),
              ({1: 0}, {2}), ({2: 0}, {1})]
-    for init in (None, ({1: 0}, set())):
+    for init in (None, "+1", "{}"):
         for hist in itertools.product(sopts, repeat=4):
             if all(h is None for h in hist):
                 continue
-            lines = ["case %d" % idx, "shape tss" + ((" init " + w2s("set", init[0], init[1])) if init else "")]
+            lines = ["case %d" % idx, "shape tss" + ((" init " + init) if init else "")]
             for h in hist:
                 lines.append("c -" if h is None else "c " + w2s("set", h[0], h[1]))
             lines += ["c -", "run"]
             cases.append(Case(lines)); idx += 1
+    # every loop history of 5 cycles over x in {nothing, 0, 1, 4} x every kind x {no initial, EMPTY, content}
+    for shape, content in (("ts", "0=0"), ("tss", "+1"), ("tsd", "1=7")):
+        for init in (None, content) + (("{}",) if shape != "ts" else ()):
+            for hist in itertools.product([None, 0, 1, 4], repeat=5):
+                if all(h is None for h in hist):
+                    continue
+                lines = ["case %d" % idx, "shape %s%s loop" % (shape, (" init " + init) if init else "")]
+                lines += ["c -" if h is None else "c 0=%d" % h for h in hist] + ["c -", "run"]
+                cases.append(Case(lines)); idx += 1
     return cases
 
 
 def streams(rng, tier, seed):
-    n = 700 if tier == "quick" else 20000
+    n = 900 if tier == "quick" else 24000
     cases = [gen_case(rng, i) for i in range(n)]
+    cases += directed(n)
     if tier != "quick":
-        cases += exhaustive_small(n)
+        cases += exhaustive_small(n + 10000)
     cdir = os.path.join(os.path.dirname(os.path.dirname(os.path.dirname(os.path.abspath(__file__)))), "corpus", "C08")
     corpus = []
     if os.path.isdir(cdir):
